@@ -25,6 +25,7 @@ from concurrent.futures import ThreadPoolExecutor
 
 import common
 import history_util as hu
+import history_nested as hn
 
 KEYS_SUPPORT = ('objects-kept-alive',)
 
@@ -387,9 +388,16 @@ def cover_history(ctx, h, r):
     seq = list(h['calls']) + [h['probe']]
     ctx.cover('history_len_%02d' % len(h['calls']))
     shared_cache_sets = {}
-    for c, rec in zip(seq, r['history'].get('calls', [])):
+    nested_fail = False
+    for k, (c, rec) in enumerate(zip(seq, r['history'].get('calls', []))):
+        if nested_fail and rec['kind'] == 'markup':
+            ctx.cover('markup_call_after_a_call_that_raised_inside_a_nested_snippet')
         ctx.cover('call_%s_%s%s' % (rec['kind'], rec['out'][0], ('_stage%d' % rec['stage']) if rec['stage'] else ''))
         ctx.cover('via_' + c['via'])
+        if rec['kind'] == 'markup' and rec['out'][0] == 'err' and rec.get('open_levels') is not None:
+            ctx.cover('raised_with_%d_snippet_levels_open' % min(rec['open_levels'], 4))
+            if rec['open_levels'] > 0:
+                nested_fail = True
         if c['via'] != 'default' and '@global' in h['dicts'][h['objs'][c['d']] if c['via'] == 'obj' else c['d']]:
             ctx.cover('call_with_global_config')
         if c['via'] != 'default':
@@ -437,6 +445,11 @@ def gen(ctx):
         extra = []
     n_rand = 260 if ctx.tier == 'quick' else 6000
     hs += [('random', hu.rand_history(rng, 12, extra)) for _ in range(n_rand)]
+    # calls that stop (raise / meet a circular reference) INSIDE nested snippet resolution, then the enclosing snippets
+    if not os.environ.get('C08_ONLY_RANDOM'):
+        hs += [('nested-pair', h) for h in hn.nested_pair_histories()]
+    n_nested = 90 if ctx.tier == 'quick' else 2000
+    hs += [('nested-random', hn.rand_nested_history(rng)) for _ in range(n_nested)]
     return hs
 
 
@@ -451,7 +464,14 @@ def run(ctx):
         'probe over 1..7 configurations: markup and stylesheet, succeeding and failing (malformed abbreviation, malformed '
         'user snippet, snippets that do not convert), the same dict object / an equal copy / a shared Config object / no '
         'config, cache dicts shared between differing units, snippets, syntaxes and contexts, BEM, wrap text (str, list, '
-        'empty), contexts.  Oracle per call: result = result of the same call alone in a pristine process (forked from a '
+        'empty), contexts; calls that stop INSIDE nested snippet resolution (harness/history_nested.py): user snippets that name '
+        'user snippets (1..3 levels), user snippets that name built-in snippets, and documented built-in chains (! -> doc -> '
+        'meta:vp, input:t -> inp -> input, ri:d -> img:s -> img, ...) whose inner name the user overrides, the innermost body '
+        'malformed (open quote / bracket / group / field, stray parenthesis), circular or well-formed, reached as first child, '
+        'after a sibling, in a group, repeated, deeper, with attributes; followed by calls that use the enclosing snippets '
+        'through the same dict, an equal copy, a Config object, a well-formed / circular twin, another syntax and no '
+        'configuration (all ordered (stopping call, probe) pairs over a compact pool + random histories of 1..6 calls; '
+        'raised_with_N_snippet_levels_open counts the depth really reached).  Oracle per call: result = result of the same call alone in a pristine process (forked from a '
         'server that imported emmet and never called it; a sample is re-checked against really fresh interpreters), = '
         'result without cache; caller dicts/Config objects deep-equal before/after; module state of emmet.* unchanged; '
         'no emmet instance stays alive (gc: support, not proof).  non-trivial = a history in which one cache dict is used '
